@@ -41,3 +41,25 @@ func TestOverlapUTF8(t *testing.T) {
 		}
 	}
 }
+
+// the hard maximum: words but no sentence end before the limit, a sentence end shortly after it
+func TestSplitHardMaxForwardSearch(t *testing.T) {
+	var sb strings.Builder
+	for sb.Len() < 2000 {
+		// 150 bytes of plain words, then a full stop 30 bytes later than a multiple of the limit would like
+		sb.WriteString(strings.Repeat("lorem ipsum dolor sit amet ", 5))
+		sb.WriteString("consectetur adipiscing elit. ")
+	}
+	text := sb.String()
+	for _, max := range []int{100, 120, 150} {
+		cfg := rag.DefaultSizeConfig()
+		cfg.Max = rag.SizeLimit{Value: max, Unit: rag.SizeUnitCharacters, Type: rag.LimitTypeHard}
+		cfg.Target = rag.SizeLimit{Value: max - 20, Unit: rag.SizeUnitCharacters, Type: rag.LimitTypeSoft}
+		cfg.Min = rag.SizeLimit{Value: 1, Unit: rag.SizeUnitCharacters, Type: rag.LimitTypeSoft}
+		for _, p := range rag.NewSizeCalculatorWithConfig(cfg).SplitToSize(text, nil) {
+			if len(p) > max {
+				t.Fatalf("max %d: piece of %d bytes although every word is a break opportunity: %q", max, len(p), p)
+			}
+		}
+	}
+}
